@@ -395,7 +395,7 @@ def run(ck):
         judge(c, t, m)
     if not ck.quick():
         for k, tmpl in enumerate(EXHAUSTIVE_TEMPLATES):
-            n_done, n_left = exhaustive(ck, "c08", "drv_c08", tmpl, 2500, judge)
+            n_done, n_left = exhaustive(ck, "c08", "drv_c08", tmpl, 12000, judge)
             exh["template%d" % k] = {"schedules": n_done, "unexplored_frontier": n_left}
             ck.log("exhaustive template %d: %d schedules, frontier left %d" % (k, n_done, n_left))
     ck.coverage.update({
